@@ -21,7 +21,7 @@ func cmacCase(w *Writer, key, msg []byte, spare int, fill byte) {
 		arr[i] = fill ^ byte(i*7)
 	}
 	before := append([]byte{}, arr...)
-	view := arr[0:len(msg):len(msg)+spare]
+	view := arr[0 : len(msg) : len(msg)+spare]
 	obs := ""
 	func() {
 		defer func() {
